@@ -19,4 +19,27 @@ def bk(st, K, a):
         from spec import binspec
 
         gs.append(binspec.bk(st, K, a))
+        if K == "Stack":
+            gs.append(stack_levels(st, a, E))
     return z3.And(gs)
+
+
+def view_E(comp):
+    """entries of a child component (through conditional components)"""
+    from hgv.sv import CChild, CIte
+
+    if isinstance(comp, CIte):
+        return z3.If(comp.c, view_E(comp.a), view_E(comp.b))
+    if isinstance(comp, CChild):
+        return core.E(comp.view)
+    return z3.RealVal(-1)
+
+
+def stack_levels(st, a, E):
+    """Stack: level k holds the weight of the data with q >= t_k, so (thresholds increasing, t_0 = -inf) the
+    levels are non-increasing and level 0 together with nanflow holds everything"""
+    bins = a["bins"]
+    k = z3.Const(f"stk!{core.uid()}", bins.ksort)
+    lvl = lambda i: view_E(bins.val(i).items[1])
+    mono = st.forall(k, z3.And(bins.dom(k), bins.dom(k + 1)), lvl(k + 1) <= lvl(k), equiv=True, name="bk.stack-levels-nonincreasing")
+    return z3.And(mono, lvl(z3.IntVal(0)) + view_E(a["nanflow"]) == E)
